@@ -23,7 +23,7 @@ func TestMain(m *testing.M) { drv.Main(m) }
 // Case holds one abstract configuration serialised to the three formats (main file and, optionally,
 // an imported file of the same format), plus the names to show / graph / run.
 type Case struct {
-	Main     map[string]string `json:"main"`             // ext -> text
+	Main     map[string]string `json:"main"`               // ext -> text
 	Imported map[string]string `json:"imported,omitempty"` // ext -> text of imp.<ext>
 	Second   string            `json:"second,omitempty"`   // text of impdir/second.yaml, imported (as a directory) by imp.<ext>
 	Tasks    []string          `json:"tasks"`
